@@ -294,6 +294,10 @@ class Setup:
                     c["out_of_domain_bulk_block"] += 1
                     sn.store.write_buffer.clear()
                     sn.cm.set_coinstate(self.world.cs)
+                    have = {t.hash() for t in sn.pool()}
+                    for t in self.pooled:        # the unvalidated block may have evicted pooled transactions
+                        if t.id() not in have:
+                            sn.cm.add_transaction_to_pool(bridge.rtx_to_real(t))
                 else:
                     what = [n2 for n2, (x, y) in zip(("chain state", "pool", "store tables", "write buffer", "state"), zip(before, after)) if x != y]
                     mon.v("hostile-input-changed:" + "+".join(what), "hostile %s stream built from %s changed %s" % (kind, name, what), w)
